@@ -224,12 +224,78 @@ class _RenameLocals(ast.NodeTransformer):
         return node
 
 
+class _SwapIfElse(ast.NodeTransformer):
+    """if c: A else: B  ->  if not c: B else: A   (plain two-armed ifs only; elif chains keep their shape)."""
+
+    def visit_If(self, node):
+        self.generic_visit(node)
+        if node.orelse and not (len(node.orelse) == 1 and isinstance(node.orelse[0], ast.If)) \
+                and not (len(node.body) == 1 and isinstance(node.body[0], ast.If) and node.body[0].orelse):
+            return ast.If(test=ast.UnaryOp(op=ast.Not(), operand=node.test), body=node.orelse, orelse=node.body)
+        return node
+
+
+def _pure(e):
+    for n in ast.walk(e):
+        if isinstance(n, ast.Call):
+            f = n.func
+            if not (isinstance(f, ast.Attribute) and isinstance(f.value, ast.Name) and f.value.id in ("np", "math")):
+                return False
+        if isinstance(n, (ast.Yield, ast.Await, ast.NamedExpr, ast.Starred, ast.Lambda, ast.ListComp, ast.GeneratorExp)):
+            return False
+    return True
+
+
+class _InlineTemps(ast.NodeTransformer):
+    """x = <pure expr>; <next statement uses x exactly once and nothing else in the function mentions x>  ->  inline.
+    Only scalar-looking arithmetic is inlined (no subscripts / attribute stores involved), so no aliasing changes."""
+
+    def visit_FunctionDef(self, node):
+        self.generic_visit(node)
+        counts = {}
+        for n in ast.walk(node):
+            if isinstance(n, ast.Name):
+                counts.setdefault(n.id, [0, 0])[0 if isinstance(n.ctx, ast.Store) else 1] += 1
+        self._blocks(node, counts)
+        return node
+
+    def _blocks(self, node, counts):
+        for field in ("body", "orelse", "finalbody"):
+            blk = getattr(node, field, None)
+            if not isinstance(blk, list):
+                continue
+            i = 0
+            while i + 1 < len(blk):
+                st, nx = blk[i], blk[i + 1]
+                if isinstance(st, ast.Assign) and len(st.targets) == 1 and isinstance(st.targets[0], ast.Name) \
+                        and counts.get(st.targets[0].id) == [1, 1] and _pure(st.value) \
+                        and isinstance(nx, (ast.Assign, ast.Return, ast.AugAssign)) \
+                        and not isinstance(st.value, (ast.Name, ast.Constant, ast.Subscript, ast.Attribute, ast.Tuple, ast.List)):
+                    name = st.targets[0].id
+                    uses = [n for n in ast.walk(nx) if isinstance(n, ast.Name) and n.id == name and isinstance(n.ctx, ast.Load)]
+                    if len(uses) == 1:
+                        val = st.value
+
+                        class R(ast.NodeTransformer):
+                            def visit_Name(self, n):
+                                return val if (n.id == name and isinstance(n.ctx, ast.Load)) else n
+                        blk[i + 1] = R().visit(nx)
+                        del blk[i]
+                        continue
+                i += 1
+            for st in blk:
+                if not isinstance(st, (ast.FunctionDef, ast.ClassDef)):
+                    self._blocks(st, counts)
+
+
 REWRITES = {
     "unparse-roundtrip": lambda t: t,
     "flip-comparisons": lambda t: _FlipCompare().visit(t),
     "dot-style": lambda t: _DotStyle().visit(t),
     "reorder-functions": _reorder_functions,
     "rename-locals": lambda t: _RenameLocals().visit(t),
+    "swap-if-else": lambda t: _SwapIfElse().visit(t),
+    "inline-temps": lambda t: _InlineTemps().visit(t),
 }
 
 
